@@ -578,6 +578,42 @@ def rule_type_predicates(ctx, rid="R1.7"):
     return r
 
 
+def rule_is_type_wiring(ctx, rid="R1.7b"):
+    """is_type is a pure function of (instance, type name): Validator.is_type returns TYPE_CHECKER.is_type(instance, type),
+    which returns the registered predicate applied to the instance; nothing is remembered between calls."""
+    from ..effects import effects_of
+    prog = ctx.prog
+    calls = calls_of(prog)
+    eff = effects_of(prog)
+    r = ctx.rule(rid, "is_type is the draft's predicate applied to this very instance (no caching, no other input)", floor=2)
+    vm = calls.V.methods["is_type"]
+    tm = prog.cls("_types.TypeChecker").methods["is_type"]
+    for f in (vm, tm):
+        ws = eff.nonlocal_writes(f)
+        for w, t in ws:
+            r.fail("%s|state|%s" % (f.qual, w.text[:40]), site(f, w.node), "%s remembers something between calls: %s" % (f.name, w.text[:50]))
+        rets = [n for n in walk_body(f) if isinstance(n, ast.Return)]
+        ps = f.params
+        ok = False
+        if f is vm:
+            ok = len(rets) == 1 and isinstance(rets[0].value, ast.Call) and norm(rets[0].value.func) == "%s.TYPE_CHECKER.is_type" % ps[0] \
+                and [norm(a) for a in rets[0].value.args] == [ps[1], ps[2]]
+        else:
+            # fn = self._type_checkers[type] ... return fn(self, instance)
+            fnvar = None
+            for n in walk_body(f):
+                if isinstance(n, ast.Assign) and isinstance(n.value, ast.Subscript) and norm(n.value.value) == "%s._type_checkers" % ps[0] \
+                        and norm(n.value.slice) == ps[2] and isinstance(n.targets[0], ast.Name):
+                    fnvar = n.targets[0].id
+            ok = fnvar is not None and len(rets) == 1 and isinstance(rets[0].value, ast.Call) and norm(rets[0].value.func) == fnvar \
+                and [norm(a) for a in rets[0].value.args] == [ps[0], ps[1]]
+        if ok and not ws:
+            r.ok(site(f), "returns the predicate's answer for (instance, type) directly")
+        elif not ok:
+            r.fail("%s|wiring" % f.qual, site(f), "%s does not simply return the registered predicate's answer for this instance and type name" % f.qual)
+    return r
+
+
 def run(ctx):
     ctx.explanation = (
         "C01, necessary structural conditions of agreement with the specification: R1.1 keyword tables = draft vocabularies; "
@@ -597,6 +633,7 @@ def run(ctx):
     rule_whole_domain(ctx)
     rule_additional_complement(ctx)
     rule_type_predicates(ctx)
+    rule_is_type_wiring(ctx)
     # R1.10: a keyword's verdict may depend on exactly the sibling names the draft gives it (necessary for spec agreement)
     from .c10 import rule_read_set
     rule_read_set(ctx, "R1.10")
